@@ -135,5 +135,56 @@ def newSessionTracker (localStr remoteStr : Bytes) : Tracker :=
     linkPeer := Codec.idB58Decode remoteStr
     signalPub := (Codec.idB58Decode remoteStr).bind Codec.extractPublicKey }
 
+/-- `(*WebRTC).addSessionTrackerRef(peerIDStr)` on the transport of peer `localID`
+(webrtc.go): `none` = an error is returned and nothing is created (the string does not parse as
+a peer ID with an embedded public key, or it names the transport itself); otherwise the tracker
+`sessionTrackers.AddKeyRef(peerID.String())` yields, i.e. `newSessionTracker` applied to the
+canonical text of the parsed ID. This is the only place trackers are created
+(`Gen.WebRtcSession.trackerCreators`). -/
+def addSessionTrackerRef (localID peerIDStr : Bytes) : Option Tracker :=
+  match Codec.idB58Decode peerIDStr with
+  | none => none
+  | some id =>
+    match Codec.extractPublicKey id with
+    | none => none
+    | some pub =>
+      if Codec.matchesPublicKey localID pub then none
+      else some (newSessionTracker (Codec.idB58Encode localID) (Codec.idB58Encode id))
+
+/-- `handleSignalPeerResolver.Resolve` (handler.go): a signal received on the signaling session
+whose remote peer is `sessRemote` (decoded with the transport's private key) is pushed to the
+tracker `addSessionTrackerRef(sessRemote.String())` yields. -/
+def incomingTracker (localID sessRemote : Bytes) : Option Tracker :=
+  addSessionTrackerRef localID (Codec.idB58Encode sessRemote)
+
+/-- `DialPeer(peerID, _)`: the tracker whose link is awaited. -/
+def dialTracker (localID peerID : Bytes) : Option Tracker :=
+  addSessionTrackerRef localID (Codec.idB58Encode peerID)
+
+/-- What a running tracker hands to its sinks (`executeLink`, `executeXmitSignal`, `execute`;
+the expressions are pinned by `Props.C26.session_code_shape` / `handler_code_shape`): the expected
+remote peer of `ListenSession` / `DialSession` and the remote peer of the signaling session are
+`s.peerID`; outgoing signals are encrypted to `s.peerPub`. -/
+structure Sinks where
+  quicExpectedPeer : Option Bytes
+  signalingRemote : Option Bytes
+  signalEncryptKey : Option Bytes
+deriving Repr, DecidableEq
+
+def Tracker.sinks (t : Tracker) : Sinks := ⟨t.linkPeer, t.linkPeer, t.signalPub⟩
+
+/-- "offer" / "answer" as they appear in `sessionTracker.execute`
+(pinned by `Gen.WebRtcSession.sdpRoleEnforcement`). -/
+def offerStr : Bytes := [111, 102, 102, 101, 114]
+def answerStr : Bytes := [97, 110, 115, 119, 101, 114]
+
+/-- `sessionTracker.execute`: role enforcement on an incoming signal (`false` = the tracker fails
+with an error): a `request_offer` is served only by the offerer; an SDP with a non-empty type must
+be an answer for the offerer and an offer for the answerer; anything else passes this stage. -/
+def roleAccepts (offerer : Bool) : Body → Bool
+  | .requestOffer _ => offerer
+  | .sdp s => s.sdpType.isEmpty || (if offerer then s.sdpType == answerStr else s.sdpType == offerStr)
+  | _ => true
+
 end Signal
 end Bifrost
